@@ -33,7 +33,7 @@ INVARIANT Export
 {props}
 """
 _info: Dict[str, Any] = {}
-NQUERIES = 11
+NQUERIES = 13
 
 
 def normalise(sink: List[Dict[str, Any]]) -> List[Dict[str, Any]]:
@@ -262,6 +262,19 @@ def _replay(rec: Dict[str, Any]) -> List[Tuple[str, Dict[str, Any], str]]:
                 if [tuple(m.parts) for m in path.finditer(docs[0], filter_context=ctxs[0])] != first:
                     disc = "result-changed-on-repeated-use"
                     break
+            # ... and the use after several hundred iterators that were opened, advanced once and abandoned
+            if not disc:
+                try:
+                    for k in range(480):
+                        it = iter(path.finditer(docs[k % len(docs)], filter_context=ctxs[(k // len(docs)) % len(ctxs)]))
+                        next(it, None)
+                        if k % 2:
+                            it.close()
+                        del it
+                    if [tuple(m.parts) for m in path.finditer(docs[0], filter_context=ctxs[0])] != first:
+                        disc = "result-changed-after-abandoned-iterators"
+                except BaseException as e:  # noqa: BLE001
+                    disc = f"evaluation-after-abandoned-iterators-raised-{exc_family(e)}"
         if disc:
             acts = ">".join(h["act"] for h in rec["hist"][:step])
             return [(f"{disc}|caching={caching}|q{rec['q']}", {"query": text, "filter_caching": caching, "failed_at_step": step,
@@ -285,7 +298,9 @@ INVARIANT Export
 """
 _tables: Dict[int, Any] = {}
 # (document, context) of each thread: different roots and different contexts, the third equal to the first in value
-THREAD_PAIRS = {2: [(1, 1), (2, 2)], 3: [(1, 1), (2, 2), (3, 2)]}
+THREAD_PAIRS = {2: [(1, 1), (2, 2)], 3: [(1, 1), (2, 2), (3, 2)],
+                # (key 22) two threads reading one and the same document and context object
+                22: [(1, 1), (1, 1)]}
 
 
 def _thread_setup(q: int, caching: bool, pairs: List[Tuple[int, int]]) -> Tuple[Any, List[Any], List[Any], List[Any]]:
@@ -295,6 +310,8 @@ def _thread_setup(q: int, caching: bool, pairs: List[Tuple[int, int]]) -> Tuple[
     path = env.compile(untext(_info["queries"][q - 1]))
     docs = [untag(_info["docs"][d - 1]["doc"]) for d, _ in pairs]
     ctxs = [untag(_info["ctxs"][c - 1]) for _, c in pairs]
+    if len(pairs) == 2 and pairs[0] == pairs[1]:
+        docs[1], ctxs[1] = docs[0], ctxs[0]          # shared, read-only
 
     def fn(i: int) -> Any:
         return lambda: [tuple(m.parts) for m in path.finditer(docs[i], filter_context=ctxs[i])]
@@ -334,7 +351,7 @@ def replay_threads(args: Tuple[int, bool, int, List[List[List[int]]]]) -> List[T
         r = Run(fns)
         r.run([(t - 1, n) for t, n in sched])
         disc = ""
-        for i in range(nt):
+        for i in range(len(pairs)):
             if r.errors[i] is not None:
                 disc = f"thread-raised-{exc_family(r.errors[i])}"
             elif not r.done[i]:
@@ -370,39 +387,55 @@ def threads_part(chk: Check, tier: str, seed: int) -> None:
     chk.add_tlc(r)
     queries = list(range(1, NQUERIES + 1))
     plans = [(q, caching, 2) for q in queries for caching in (True, False)]
-    plans += [(q, True, 3) for q in (queries[::4] if tier == "quick" else queries)]
+    plans += [(q, True, 3) for q in (queries[seed % 6::6] if tier == "quick" else queries)]
+    plans += [(q, c, 22) for q in ((13, 5, 1) if tier == "quick" else queries) for c in ((True,) if tier == "quick" else (True, False))]
+    import time as _t
+    _t0 = _t.time()
     lens = list(core.pmap(thread_lengths, plans, item_timeout=120))
+    chk.extra["seconds_thread_lengths"] = round(_t.time() - _t0, 1)
+    _t0 = _t.time()
+    chk.extra["thread_lines_solo"] = {f"q{q}-{'on' if c else 'off'}-{nt}": ls for (q, c, nt), ls in zip(plans, lens) if nt != 3 and c}
     jobs = []
     for (q, caching, nt), ls in zip(plans, lens):
         if not isinstance(ls, list) or not all(isinstance(x, int) for x in ls):
             chk.violation(f"threads:solo-run-{ls if isinstance(ls, str) else 'abnormal'}|q{q}", {"query": untext(_info["queries"][q - 1]), "filter_caching": caching}, "solo traced run failed")
             continue
         l3 = ls[2] if nt == 3 else 0
-        if nt == 2:
+        if len(THREAD_PAIRS[nt]) == 2:
             # every line of either thread as the single pre-emption point; two pre-emptions on a grid
-            # (quick: every line with caching on, every fourth line with caching off)
-            st1 = 4 if (tier == "quick" and not caching) else 1
+            # (every line of either thread is tried as the single pre-emption point; quick: every 5th line with caching off)
+            if tier != "quick" or caching:
+                st1 = 1
+            else:
+                st1 = 5
+            # a bound on the pre-emption points of one workload (the descendant query runs 20 000 lines per thread)
+            cap = (3000 if st1 == 1 else 600) if tier == "quick" else 12000
+            st1 = max(st1, -(-(ls[0] + ls[1]) // cap))
             jobs.append(((q, caching, nt), ("MC_Threads", TCFG.format(nt=2, l1=ls[0], l2=ls[1], l3=0, mp=1, st=st1, sh="FALSE", walk="FALSE", next="INIT Init\nNEXT Next", props=""), dict(timeout=1200, workers=2))))
-            grid = max(2, max(ls) // (8 if tier == "quick" else 60))
+            grid = max(2, max(ls) // (6 if tier == "quick" else 60))
             jobs.append(((q, caching, nt), ("MC_Threads", TCFG.format(nt=2, l1=ls[0], l2=ls[1], l3=0, mp=2, st=grid, sh="FALSE", walk="FALSE", next="INIT Init\nNEXT Next", props=""), dict(timeout=1200, workers=2))))
         else:
-            grid = max(2, max(ls) // (5 if tier == "quick" else 16))
+            grid = max(2, max(ls) // (4 if tier == "quick" else 16))
             jobs.append(((q, caching, nt), ("MC_Threads", TCFG.format(nt=3, l1=ls[0], l2=ls[1], l3=l3, mp=2, st=grid, sh="FALSE", walk="FALSE", next="INIT Init\nNEXT Next", props=""), dict(timeout=1200, workers=2))))
             jobs.append(((q, caching, nt), ("MC_Threads", TCFG.format(nt=3, l1=ls[0], l2=ls[1], l3=l3, mp=0, st=max(2, max(ls) // 20), sh="FALSE", walk="TRUE", next="INIT Init\nNEXT NextSim", props=""),
-                                            dict(simulate=(40 if tier == "quick" else 1500, 400), seed=seed + q, workers=1, timeout=1200))))
+                                            dict(simulate=(20 if tier == "quick" else 1500, 400), seed=seed + q, workers=1, timeout=1200))))
     items = []
     nsched = 0
     for (key, _job), r in zip(jobs, core.tlc_parallel([j for _k, j in jobs], threads=8)):
         chk.add_tlc(r)
         scheds = sorted({json.dumps(x["sched"]) for x in r.records})
         nsched += len(scheds)
-        for k in range(0, len(scheds), 60):
-            items.append((key[0], key[1], key[2], [json.loads(x) for x in scheds[k:k + 60]]))
+        for k in range(0, len(scheds), 4):      # (small items: the pool only spreads over all cores from a few thousand items on)
+            items.append((key[0], key[1], key[2], [json.loads(x) for x in scheds[k:k + 4]]))
+    chk.extra["seconds_thread_tlc"] = round(_t.time() - _t0, 1)
+    _t0 = _t.time()
     for it, res in zip(items, core.pmap(replay_threads, items, chunk=20, item_timeout=300)):
         chk.traces += len(it[3])
         for sig, case, what in res:
             chk.violation(sig, case, what)
     chk.extra["thread_schedules_replayed"] = nsched
+    chk.extra["seconds_thread_replay"] = round(_t.time() - _t0, 1)
+    chk.extra["thread_replay_items"] = len(items)
     chk.extra["thread_workloads"] = len(plans)
     if items:
         chk.sample({"threads": THREAD_PAIRS[items[0][2]], "query": untext(_info["queries"][items[0][0] - 1]), "schedule_bursts_thread_lines": items[0][3][min(7, len(items[0][3]) - 1)]})
@@ -435,9 +468,11 @@ def run(chk: Check, tier: str, seed: int) -> None:
     if tier == "quick":
         bfs = [x for x in recs if len(x["hist"]) == 4]
         recs = bfs[::4] + [x for x in recs if len(x["hist"]) != 4]
+    seen_q = set()
     for i, x in enumerate(recs):
-        if i % 40 == 0:
+        if i % 40 == 0 or x["q"] not in seen_q:      # (and at least one history of every query)
             x["_repeat"] = True
+            seen_q.add(x["q"])
     traces: List[Dict[str, Any]] = []
     cap = 12000 if tier == "quick" else 60000
     # the histories whose hook events go to TLC: every random walk (all queries) and an even spread of the exhaustive ones
@@ -471,7 +506,10 @@ def run(chk: Check, tier: str, seed: int) -> None:
         for sig, case, what in res:
             chk.violation(sig, case, what)
     chk.extra["document_supplied_pattern_queries_compared_across_histories"] = len(HISTORY_QUERIES)
+    import time as _t
+    _t0 = _t.time()
     threads_part(chk, tier, seed)
+    chk.extra["seconds_thread_part"] = round(_t.time() - _t0, 1)
     # ---- code -> specification: the hook events of every history validated by TLC (Trace_Cache.tla)
     if traces:
         sc = core.scratch()
